@@ -128,7 +128,7 @@ func checkC02(c *Ctx) {
 		gidx := p.Sym(am.Hand.Call.Args[0]).Strip()
 		idp := f.Params[1]
 		okG := gidx.IsCall("Table.FindGamePlayerIdx") && symIsParam(gidx.Args[1], idp)
-		c.Check(okG, "R2", f.Name()+":hand-index", p.InstrPos(am.Hand), "FindGamePlayerIdx(own id)", "hand index is "+gidx.String())
+		c.Check(okG, "R2", fnName(f)+":hand-index", p.InstrPos(am.Hand), "FindGamePlayerIdx(own id)", "hand index is "+gidx.String())
 		// player index: every PlayerStates[...] used for a store in this method is indexed by FPIFGPI(gidx)
 		bad := ""
 		n := 0
@@ -165,7 +165,7 @@ func checkC02(c *Ctx) {
 				}
 			}
 		}
-		c.Check(bad == "", "R2", f.Name()+":player-index", p.Pos(f.Pos()), fmt.Sprintf("%d player reference(s), all PlayerStates[FindPlayerIndexFromGamePlayerIndex(hand index)]", n), "a table player is addressed by an index not derived from the caller's hand index: "+bad)
+		c.Check(bad == "", "R2", fnName(f)+":player-index", p.Pos(f.Pos()), fmt.Sprintf("%d player reference(s), all PlayerStates[FindPlayerIndexFromGamePlayerIndex(hand index)]", n), "a table player is addressed by an index not derived from the caller's hand index: "+bad)
 	}
 
 	// ---------------- R3 (as C01.R2)
@@ -249,7 +249,7 @@ func checkC02(c *Ctx) {
 	}
 
 	// remap after a leave: indexes recorded for the remaining players are positions in the NEW list
-	checkLeaveRemap(c)
+	checkLeaveRemap(c, "R4")
 	checkTableLookups(c, "R5", "FindPlayerIdx", "FindGamePlayerIdx", "GamePlayerIndex")
 	checkInPlaceFilter(c, "R4")
 	checkHandListStart(c, "R4")
@@ -277,7 +277,7 @@ func checkC02(c *Ctx) {
 			if ss.Owner == "TableState" && ss.Field == "PlayerStates" {
 				v := ss.Val.Strip()
 				ok := v.Kind == "builtin" && v.Name == "append" && v.Args[0].Strip().IsField("TableState", "PlayerStates")
-				c.Check(ok, "R6", "join-appends:"+f.Name(), p.InstrPos(ss.Instr), "PlayerStates = append(PlayerStates, new...)", "joining can reorder or drop existing players: "+v.String())
+				c.Check(ok, "R6", "join-appends:"+fnName(f), p.InstrPos(ss.Instr), "PlayerStates = append(PlayerStates, new...)", "joining can reorder or drop existing players: "+v.String())
 			}
 			if ss.Owner == "TableState" && ss.Field == "SeatMap" {
 				// value is a local slice, filled by copy(old seat map) and patched at assigned seats only
@@ -304,7 +304,7 @@ func checkC02(c *Ctx) {
 						}
 					}
 				}
-				c.Check(copied && lenOK && patchOK, "R6", "join-seat-map:"+f.Name(), p.InstrPos(ss.Instr), "new seat map = copy of the old one patched at the assigned seats", fmt.Sprintf("the seat map installed on join is not a same-length copy of the old one patched only at assigned seats (copy=%v len=%v patch=%v)", copied, lenOK, patchOK))
+				c.Check(copied && lenOK && patchOK, "R6", "join-seat-map:"+fnName(f), p.InstrPos(ss.Instr), "new seat map = copy of the old one patched at the assigned seats", fmt.Sprintf("the seat map installed on join is not a same-length copy of the old one patched only at assigned seats (copy=%v len=%v patch=%v)", copied, lenOK, patchOK))
 			}
 		}
 	}
@@ -390,7 +390,7 @@ func checkTranslators(c *Ctx) {
 		if f.Signature.Recv() == nil || namedOf(f.Signature.Recv().Type()) == nil || namedOf(f.Signature.Recv().Type()).Obj().Name() != "Table" {
 			continue
 		}
-		switch f.Name() {
+		switch fnName(f) {
 		case "FindGamePlayerIdx":
 			fg = f
 		case "FindPlayerIndexFromGamePlayerIndex":
@@ -464,7 +464,7 @@ func checkTranslators(c *Ctx) {
 // seat-map entry is written as (X.PlayerID | X.Seat) ↦ i with X = L[i], i ranging over the
 // whole of L, where L is the player list the function returns; and every element appended
 // to the returned hand index list is a lookup in such an id→index map.
-func checkLeaveRemap(c *Ctx) {
+func checkLeaveRemap(c *Ctx, rule string) {
 	p := c.P
 	var leave *ssa.Function
 	for _, f := range p.Funcs {
@@ -480,7 +480,7 @@ func checkLeaveRemap(c *Ctx) {
 		}
 	}
 	if leave == nil {
-		c.Bad("R4", "leave-remap", "-", "leave computation not found")
+		c.Bad(rule, "leave-remap", "-", "leave computation not found")
 		return
 	}
 	var newList string
@@ -524,13 +524,13 @@ func checkLeaveRemap(c *Ctx) {
 			if !ok {
 				d = fmt.Sprintf("after a leave, %s of a remaining player is mapped to %s, which is not that player's position in the new player list", key.Name, val)
 			}
-			c.Check(ok, "R4", "leave-remap:"+key.Name, p.InstrPos(in), key.Name+" ↦ position in the new player list", d)
+			c.Check(ok, rule, "leave-remap:"+key.Name, p.InstrPos(in), key.Name+" ↦ position in the new player list", d)
 			if ok && isIDMap {
 				idMaps[mapV] = true
 			}
 		}
 	}
-	c.Min("R4", "remap entries in the leave computation", n, 2)
+	c.Min(rule, "remap entries in the leave computation", n, 2)
 	// the rebuilt hand index list takes its elements from such a map
 	na := 0
 	for _, ci := range Calls(leave) {
@@ -554,7 +554,7 @@ func checkLeaveRemap(c *Ctx) {
 			ok = false
 			es = p.Sym(ci.Common().Args[0]).Strip()
 		}
-		c.Check(ok, "R4", "leave-remap:hand-index-source", p.InstrPos(ci), "new hand index = new position of the same player id, list starts empty", "after a leave the hand index list is rebuilt from "+es.String()+", not from the id → new position map (or does not start empty)")
+		c.Check(ok, rule, "leave-remap:hand-index-source", p.InstrPos(ci), "new hand index = new position of the same player id, list starts empty", "after a leave the hand index list is rebuilt from "+es.String()+", not from the id → new position map (or does not start empty)")
 		// … looked up by the id of the player the *old* hand entry denotes, for every old entry in order
 		if ok {
 			lk := es.Args[0].Strip().V.(*ssa.Lookup)
@@ -594,10 +594,10 @@ func checkLeaveRemap(c *Ctx) {
 					why = "the old hand entries are enumerated as " + k.String() + ", not as every element of the current hand index list in order"
 				}
 			}
-			c.Check(why == "", "R4", "leave-remap:hand-index-order", p.InstrPos(ci), "for each old hand entry in order: new position of that entry's player", "after a leave the hand index list no longer denotes the same players in the same order: "+why)
+			c.Check(why == "", rule, "leave-remap:hand-index-order", p.InstrPos(ci), "for each old hand entry in order: new position of that entry's player", "after a leave the hand index list no longer denotes the same players in the same order: "+why)
 		}
 	}
-	c.Min("R4", "appends to the remapped hand index list", na, 1)
+	c.Min(rule, "appends to the remapped hand index list", na, 1)
 	// the remap is performed whenever a hand exists (opened, playing or settled); the
 	// status it tests is the live table's
 	for _, ci := range Calls(leave) {
@@ -612,14 +612,14 @@ func checkLeaveRemap(c *Ctx) {
 				missing = append(missing, w)
 			}
 		}
-		c.Check(len(missing) == 0, "R4", "leave-remap:while-a-hand-exists", p.InstrPos(ci), "remap under status ∈ {opened, playing, settled}", "a leave does not re-index the hand's player list in status "+strings.Join(missing, ", ")+": the hand's entries then denote other players")
+		c.Check(len(missing) == 0, rule, "leave-remap:while-a-hand-exists", p.InstrPos(ci), "remap under status ∈ {opened, playing, settled}", "a leave does not re-index the hand's player list in status "+strings.Join(missing, ", ")+": the hand's entries then denote other players")
 	}
 	for _, site := range p.CG().AllCallSitesOf(leave) {
 		if len(site.Common().Args) < 2 {
 			continue
 		}
 		a := p.Sym(site.Common().Args[1]).Strip()
-		c.Check(a.IsField("TableState", "Status"), "R4", "leave-remap:status-argument:"+FuncName(site.Parent()), p.InstrPos(site), "status argument = the table's status", "the leave computation is told status "+a.String())
+		c.Check(a.IsField("TableState", "Status"), rule, "leave-remap:status-argument:"+FuncName(site.Parent()), p.InstrPos(site), "status argument = the table's status", "the leave computation is told status "+a.String())
 	}
 }
 
